@@ -671,7 +671,15 @@ where
                     }
                     ChunkCommand::Resume => {
                         //info!("[verify-test] run_vms_child: resume");
-                        let res = scheduler.run(RunMode::Pause(pause_cloned, max_cycles));
+                        // `max_cycles` limits the whole script group, while the limit
+                        // passed to `Scheduler::run` is relative to that call: the
+                        // cycles consumed before the previous pauses must be deducted.
+                        let res = match max_cycles.checked_sub(scheduler.consumed_cycles()) {
+                            Some(remain_cycles) => {
+                                scheduler.run(RunMode::Pause(pause_cloned, remain_cycles))
+                            }
+                            None => Err(VMInternalError::CyclesExceeded),
+                        };
                         match res {
                             Ok(_) => {
                                 let _ = finish_tx.send(res);
